@@ -29,6 +29,12 @@ def main():
             Vertex.NEIGHBOR_CACHING = bool(job["flag"])
             loader = dill if job.get("loader") == "dill" else pickle
             world = loader.loads(job["blob"]) if job.get("blob") is not None else None
+            if "c20" in job["want"]:
+                from checks import c20
+
+                res["sig"] = c20.signature(job["case"])
+                results.append(res)
+                continue
             if "c05prefix" in job["want"]:
                 from checks import c05
 
